@@ -23,6 +23,9 @@ pub enum Cause {
     /// the parent's read of the k-th command's exec status is interrupted by a
     /// signal handler (EINTR); the command itself may well be running by then
     StatusRead,
+    /// the last command is refused for its configuration (stdout and stderr both
+    /// Merge: a LogicError, not an operating-system error); k = n-1
+    BadConfig,
 }
 #[derive(Clone, Copy, Debug, PartialEq, Serialize, Deserialize)]
 pub enum SIn {
@@ -83,6 +86,8 @@ fn build_and_run(case: &FailCase, helper: std::path::PathBuf, markers: std::path
     for i in 0..case.n {
         let mut e = if case.cause == Cause::Missing && i == case.k {
             Exec::cmd("/nonexistent/verif-no-such-program").arg("x")
+        } else if case.cause == Cause::BadConfig && i == case.k {
+            Exec::cmd(&helper).arg("stage").arg("Tx").arg("0").arg("0").arg("0").arg(&markers).arg(i.to_string()).stderr(Redirection::Merge)
         } else {
             Exec::cmd(&helper).arg("stage").arg(format!("T{}", i + 1)).arg((2 * case.err_lines).to_string()).arg(case.linger_ms.to_string()).arg("0").arg(&markers).arg(i.to_string()).arg(if case.ign_term { "igterm" } else { "-" })
         };
@@ -96,6 +101,9 @@ fn build_and_run(case: &FailCase, helper: std::path::PathBuf, markers: std::path
         cmds.push(e);
     }
     let mut p = Pipeline::from_exec_iter(cmds);
+    if case.cause == Cause::BadConfig {
+        p = p.stdout(Redirection::Merge);
+    }
     match case.stdin {
         SIn::Inherit => {}
         SIn::Pipe => {
@@ -109,6 +117,7 @@ fn build_and_run(case: &FailCase, helper: std::path::PathBuf, markers: std::path
     let to_res = |e: PopenError| -> RunResult {
         let os = match &e {
             PopenError::IoError(io) => io.raw_os_error(),
+            PopenError::LogicError(_) => Some(-1),
             _ => None,
         };
         RunResult { err: Some((e.to_string(), os)), ok: false }
@@ -205,6 +214,7 @@ pub fn check_case(ctx: &Ctx, case: &FailCase, rep: &mut CaseReport) -> CaseResul
         Cause::Fork => ip::fault_arm(ip::K_FORK, case.k as u32 + 1, libc::EAGAIN, false),
         Cause::Pipe => ip::fault_arm(ip::K_PIPE, case.k as u32 + 1, libc::EMFILE, false),
         Cause::StatusRead => ip::fault_arm(ip::K_READ, case.k as u32 + 1, libc::EINTR, false),
+        Cause::BadConfig => {}
     }
     ip::COUNTING.store(true, SeqCst);
     let c2 = case.clone();
@@ -253,7 +263,7 @@ pub fn check_case(ctx: &Ctx, case: &FailCase, rep: &mut CaseReport) -> CaseResul
         }
         return Ok(());
     }
-    if case.cause != Cause::Missing && fault_hit == 0 {
+    if !matches!(case.cause, Cause::Missing | Cause::BadConfig) && fault_hit == 0 {
         // ordinal beyond what this configuration uses: nothing failed, nothing to judge
         if !res.ok {
             return fail("error-without-fault", format!("{:?}", res.err));
@@ -277,6 +287,7 @@ pub fn check_case(ctx: &Ctx, case: &FailCase, rep: &mut CaseReport) -> CaseResul
         Cause::Fork => libc::EAGAIN,
         Cause::Pipe => libc::EMFILE,
         Cause::StatusRead => libc::EINTR,
+        Cause::BadConfig => -1,
     };
     if os != Some(want_errno) {
         reap_all();
@@ -297,6 +308,13 @@ pub fn check_case(ctx: &Ctx, case: &FailCase, rep: &mut CaseReport) -> CaseResul
                 return fail("later-command-started", format!("{} fork calls, expected {} with the last one failing", forks.len(), case.k + 1));
             }
         }
+        Cause::BadConfig => {
+            // refused before anything is forked for it
+            if forks.len() != case.k {
+                reap_all();
+                return fail("later-command-started", format!("{} fork calls, expected {} (command {} is refused for its configuration)", forks.len(), case.k, case.k));
+            }
+        }
         Cause::StatusRead => {
             if forks.len() != case.k + 1 {
                 reap_all();
@@ -315,6 +333,17 @@ pub fn check_case(ctx: &Ctx, case: &FailCase, rep: &mut CaseReport) -> CaseResul
     }
     // 3. children: waited for unless detached (Pipeline::communicate detaches by design)
     let detached = case.detached || case.term == STerm::Communicate;
+    if detached && case.linger_ms > 0 && case.k >= 1 && matches!(case.cause, Cause::Missing | Cause::Fork) {
+        // the started commands stay around for a while after their pipes were closed; a
+        // detached command is neither waited for nor reaped, so right after the call at
+        // least one of them is still ours (running, or a zombie nobody has collected)
+        let mut info: libc::siginfo_t = unsafe { std::mem::zeroed() };
+        let r = unsafe { libc::waitid(libc::P_ALL, 0, &mut info, libc::WEXITED | libc::WNOHANG | libc::WNOWAIT) };
+        let none_left = r == -1 && std::io::Error::last_os_error().raw_os_error() == Some(libc::ECHILD);
+        if none_left {
+            return fail("detached-command-waited-for", format!("the call returned only after the detached commands started before the failure had exited ({} ms after their pipes were closed) and it collected them", case.linger_ms));
+        }
+    }
     if !detached {
         if let Err(e) = child_audit() {
             return fail("children-left", format!("after the failed start returned: {}", e));
@@ -335,7 +364,7 @@ pub fn check_case(ctx: &Ctx, case: &FailCase, rep: &mut CaseReport) -> CaseResul
             return fail("later-command-started", format!("started markers {:?}, interrupted position {}", st, case.k));
         }
     }
-    if case.cause == Cause::Missing && first_not > case.k {
+    if matches!(case.cause, Cause::Missing | Cause::BadConfig) && first_not > case.k {
         return fail("later-command-started", format!("started markers {:?}, failing position {}", st, case.k));
     }
     // 4. no descriptor of the attempt remains
@@ -352,6 +381,14 @@ pub fn enumerate(tier: Tier) -> Vec<FailCase> {
     let maxn = tier.pick(5, 6);
     let causes: Vec<Cause> = if tier == Tier::Thorough { vec![Cause::Missing, Cause::Fork, Cause::StatusRead, Cause::Pipe] } else { vec![Cause::Missing, Cause::Fork, Cause::StatusRead] };
     for n in 2..=maxn {
+        // a configuration error at the last position
+        for stdin in [SIn::Inherit, SIn::Pipe, SIn::File] {
+            for term in [STerm::Popen, STerm::Join, STerm::StreamStdin] {
+                if compatible(stdin, term) {
+                    v.push(FailCase { n, k: n - 1, cause: Cause::BadConfig, stdin, term, detached: false, linger_ms: 0, ign_term: false, err_lines: 0, ids: false });
+                }
+            }
+        }
         for cause in &causes {
             let kmax = if *cause == Cause::Pipe { 2 * n + 2 } else { n };
             for k in 0..kmax {
@@ -372,6 +409,11 @@ pub fn enumerate(tier: Tier) -> Vec<FailCase> {
                         if k >= 1 && *cause == Cause::Missing && (n <= 3 || tier == Tier::Thorough) {
                             v.push(FailCase { n, k, cause: *cause, stdin, term, detached: false, linger_ms: 300, ign_term: false, err_lines: 0, ids: false });
                             v.push(FailCase { n, k, cause: *cause, stdin, term, detached: false, linger_ms: 600, ign_term: true, err_lines: 0, ids: false });
+                            // detached commands that take their time: not to be waited for
+                            v.push(FailCase { n, k, cause: *cause, stdin, term, detached: true, linger_ms: 400, ign_term: false, err_lines: 0, ids: false });
+                            if term == STerm::Communicate {
+                                v.push(FailCase { n, k, cause: *cause, stdin, term, detached: false, linger_ms: 400, ign_term: false, err_lines: 0, ids: false });
+                            }
                             if matches!(term, STerm::Capture | STerm::Communicate) {
                                 v.push(FailCase { n, k, cause: *cause, stdin, term, detached: false, linger_ms: 0, ign_term: false, err_lines: 15000, ids: false });
                             }
